@@ -93,7 +93,47 @@ def kmsg_path_ignores_silencing(ctx):
 
 
 
+def fs_setxattr_always_writes(ctx, tag):
+    """Fs::setxattr(path, attr, val) has stored val when it reports success: every non-error return is preceded, on every path, by the
+    setxattr(2) call with exactly (path, attr, val.c_str(), val.size()).  A 'skip the write if the attribute already holds the value' short
+    cut decides on a comparison of its own - and a wrong one ('12' starts with '1') leaves the kill counters short while the log says
+    they were set."""
+    P, cg = ctx.prog, ctx.cg
+    f = ctx.use(ctx.fn1("Oomd::Fs::setxattr"))
+    if len(f.params) != 3:
+        ctx.broken(tag + ":fs-setxattr-always-writes", "anchor", f.loc(), "Fs::setxattr no longer takes (path, attr, val)")
+        return
+    pn, an, vn = (p_["name"] for p_ in f.params)
+    X = Expander(P, f)
+    calls = [i for i in f.calls("setxattr", "lsetxattr", "fsetxattr") if plain(f.nodes[i].get("callee") or "") in ("setxattr", "lsetxattr", "fsetxattr") and f.pos_of(i) is not None]
+    good = []
+    for i in calls:
+        a = [X(x) for x in f.nodes[i].get("args", [])]
+        if len(a) >= 4 and a[0] == "param:%s.c_str()" % pn and a[1] == "param:%s.c_str()" % an and a[2] in ("param:%s.c_str()" % vn, "param:%s.data()" % vn) and \
+                a[3] in ("param:%s.size()" % vn, "param:%s.length()" % vn):
+            good.append(i)
+    ctx.counters[tag + "_setxattr_syscalls"] = len(good)
+    ctx.floor(tag + "_setxattr_syscalls", 1, "setxattr(2) with (path, attr, value, size) in Fs::setxattr")
+    if not good:
+        return
+    fl = Flow(P, f, events={i: [("set", "written")] for i in good}, cg=cg)
+    bad = []
+    for kind, node, b, parts in fl.exits():
+        if kind != "return" or node is None:
+            continue
+        t = ret_text(f, node)
+        if "systemError" in t.replace("noSystemError", "") or "SYSTEM_ERROR" in t:
+            continue
+        if not all("written" in st.must for st in parts.values()):
+            bad.append(f.loc(node))
+    ctx.check(not bad, tag + ":fs-setxattr-always-writes", "must_pass_through", f.loc(),
+              "every success return of Fs::setxattr has made the setxattr(2) call with the given value",
+              "Fs::setxattr can report success at %s without having written the value: the attribute keeps whatever it held (oomd_kill stays at 1 when 12 was to "
+              "be stored), while callers log 'Set xattr' and go on" % ", ".join(bad))
+
+
 def run(ctx):
+    fs_setxattr_always_writes(ctx, "C17")
     from .C19 import stat_update_is_applied_before_return
     stat_update_is_applied_before_return(ctx, "C17")
     from .C06 import action_context_is_replaced_whole
